@@ -110,3 +110,27 @@ func TestLockCompareFailTrace(t *testing.T) {
 		return
 	}
 }
+
+func TestPartialCommitExplore(t *testing.T) {
+	QuietLogs(t)
+	viol, vdec, cases := 0, 0, 0
+	byN := map[int]int{}
+	for i := 0; i < 600; i++ {
+		res := RunPartialCommitCase(rand.New(rand.NewSource(int64(i)*17 + 3)))
+		cases++
+		fs := CheckAgreement(res.Sim)
+		if len(fs) > 0 {
+			viol++
+			byN[res.Meta.N]++
+			if viol <= 3 {
+				t.Logf("case %d n=%d: %s", i, res.Meta.N, fs[0].What)
+			}
+		}
+		for _, v := range res.Meta.Partition[0] {
+			if len(res.Sim.Procs[v].Decisions) > 0 {
+				vdec++
+			}
+		}
+	}
+	t.Logf("cases %d, victims decided %d, agreement violations %d byN=%v", cases, vdec, viol, byN)
+}
